@@ -104,6 +104,11 @@ pub fn relabel(sc: &Scenario, rng: &mut Rng) -> Scenario {
                 ctl_used[*l] = true;
             }
         }
+        if let Reg::Sys { typed: true, reads, writes, .. } = r {
+            for l in reads.iter().chain(writes.iter()) {
+                ctl_used[*l] = true;
+            }
+        }
     });
     let mut okk: Vec<RKey> = (0..4u8).map(|ty| RKey { ty, dynid: 0 }).collect();
     rng.shuffle(&mut okk);
